@@ -304,6 +304,12 @@ class TrajectoryCalc:
         zero_distance = math.cos(self.look_angle) * distance_feet
         height_at_zero = math.sin(self.look_angle) * distance_feet
 
+        # The stored zero (plus hold) is only the first guess.  A guess below the sight line is useless for a target on
+        # the sight line and, for a target close to a trajectory limit, its trial shot hits the limit before reaching
+        # the distance - the RangeError of that trial used to abort the zeroing of a reachable target
+        if self.barrel_elevation < self.look_angle:
+            self.barrel_elevation = self.look_angle
+
         iterations_count = 0
         zero_finding_error = _cZeroFindingAccuracy * 2
         previous = None  # (elevation, height) of the previous trial, for the measured (secant) sensitivity
